@@ -149,6 +149,43 @@ def prefixed_pipe_case(rng):
     return src, result, log
 
 
+class Both:
+    """has attributes and items; some names only as attribute, some only as item, some as both"""
+    def __init__(self):
+        self.a = 'attr-a'
+        self.both = 'attr-both'
+
+    def __getitem__(self, k):
+        return {'both': 'item-both', 'i': 'item-i', 'meth': 'item-meth'}[k]
+
+    def meth(self):
+        return 'called'
+
+
+ATTR_EXPRS = [
+    ("d.title", lambda d, o: d['title']), ("len(d.items())", lambda d, o: len(d.items())), ("sorted(d.keys())[0]", lambda d, o: sorted(d.keys())[0]),
+    ("d.get('title')", lambda d, o: d.get('title')), ("d.get('nope', 'dflt')", lambda d, o: 'dflt'), ("len(d.values())", lambda d, o: len(d.values())),
+    ("d.copy() == d", lambda d, o: True), ("o.a", lambda d, o: 'attr-a'), ("o.both", lambda d, o: 'attr-both'), ("o.i", lambda d, o: 'item-i'),
+    ("o.meth()", lambda d, o: 'called'), ("callable(d.items) and callable(d.get)", lambda d, o: True), ("o.nope | 'fb'", lambda d, o: 'fb'), ("d.nokey | 'fb'", lambda d, o: 'fb'),
+    ("exists: d.items()", lambda d, o: 1), ("not: exists: d.nokey", lambda d, o: True),
+]
+
+
+def attr_case(rng):
+    """attribute access wins, item lookup is the fallback: plain dicts whose keys are named like dict methods, and an object with both"""
+    keys = rng.sample(['items', 'keys', 'get', 'values', 'copy', 'update'], rng.randint(1, 4))
+    d = {'title': 'T'}
+    for i, k in enumerate(keys):
+        d[k] = rng.choice([i, None, 'str-%s' % k])
+    o = Both()
+    picks = rng.sample(ATTR_EXPRS, rng.randint(2, 5))
+    src = ''.join('<p>%s</p>' % ('${%s}' % e if rng.random() < 0.5 and '|' not in e and ':' not in e else '<b tal:content="%s"/>' % e) for e, _ in picks)
+    exp = []
+    for e, f in picks:
+        exp.append(f(d, o))
+    return src, {'d': d, 'o': o}, picks, exp
+
+
 def correspondence(ctx):
     gen = []
     for _ in range(ctx.budget(1500, 60000)):
@@ -192,6 +229,22 @@ def oracle(ctx):
         if got != exp:
             ctx.violation('expression value differs from plain Python evaluation with template variables before builtins',
                           {'src': src, 'kwargs': vars_}, expected=exp, actual=got)
+    # attribute access before item lookup
+    for _ in range(ctx.budget(300, 8000)):
+        src, kw, picks, exp = attr_case(ctx.rng)
+        ctx.count('evaluations')
+        nt += 1
+        try:
+            got = PageTemplate(src)(**kw)
+        except Exception as e:
+            got = 'raised %s: %s' % (type(e).__name__, str(e.args[0])[:80] if e.args else '')
+        want = ''
+        for (e, _), v in zip(picks, exp):
+            inner = '' if v is None else str(v)
+            want += '<p>%s</p>' % (inner if ('${' + e + '}') in src else '<b>%s</b>' % inner)
+        if got != want:
+            ctx.violation('attribute access must come before item lookup (and fall back to it)', {'src': src, 'd': repr(kw['d'])},
+                          expected=want, actual=got)
     ctx.counters['nontrivial'] = ctx.counters.get('nontrivial', 0) + nt
     ctx.sample({'template': pipe_case(ctx.rng)[0]})
     # known finding D-04a: a non-matching case evaluates its expression twice
